@@ -67,6 +67,18 @@ func shapes() []shape {
 		s.Embeds = []bytex.FileSpec{F("logo.png", "", "", bin)}
 		s.Attach = []bytex.FileSpec{F("doc.pdf", "", "", bin)}
 	})
+	add("nonascii-ids", func(s *bytex.MsgSpec) {
+		// embeds whose default Content-ID (= the name) and explicit Content-ID are not ASCII: what the first render
+		// caches in File.Header must be a fixpoint
+		s.Parts = []bytex.PartSpec{P("text/html", "", "<p>html</p>\r\n")}
+		e1 := F("gr\xc3\xbc\xc3\x9fe.png", "", "", bin)
+		e2 := F("logo.png", "", "Beschreibung \xc3\xa4\xc3\xb6", bin)
+		e2.CID = "kennung-\xc3\xa4\xc3\xb6\xc3\xbc@x.test"
+		s.Embeds = []bytex.FileSpec{e1, e2}
+		a1 := F("\xc3\xbcbersicht \xe2\x82\xac.pdf", "", "", bin)
+		a1.CID = "<anlage-\xc3\xa9@x.test>"
+		s.Attach = []bytex.FileSpec{a1}
+	})
 	add("attach-only", func(s *bytex.MsgSpec) { s.Attach = []bytex.FileSpec{F("only.bin", "8bit", "d", "x\r\n")} })
 	add("embed-only", func(s *bytex.MsgSpec) { s.Embeds = []bytex.FileSpec{F("e.png", "", "", bin)} })
 	add("preformatted", func(s *bytex.MsgSpec) {
